@@ -1,6 +1,8 @@
 //! First pass: locate the selected items and build the symbol tables (types, signatures).
 
-use crate::manifest::{Sel, MANIFEST, OPAQUE_TYPES};
+use crate::manifest::{Sel, WorkItem, OPAQUE_TYPES};
+use std::cell::RefCell;
+use std::collections::BTreeSet;
 use crate::ty::{int_width, ListKind, Ty};
 use crate::{TErr, R};
 use std::collections::BTreeMap;
@@ -8,6 +10,7 @@ use syn::spanned::Spanned;
 
 #[derive(Clone, Debug)]
 pub struct StructInfo {
+    pub group: String,
     pub ns: String,
     pub name: String,
     pub fields: Vec<(String, Ty)>,
@@ -25,6 +28,7 @@ pub struct VariantInfo {
 
 #[derive(Clone, Debug)]
 pub struct EnumInfo {
+    pub group: String,
     pub ns: String,
     pub name: String,
     pub variants: Vec<VariantInfo>,
@@ -33,6 +37,7 @@ pub struct EnumInfo {
 
 #[derive(Clone, Debug)]
 pub struct ConstInfo {
+    pub group: String,
     pub ns: String,
     pub name: String,
     pub ty: Ty,
@@ -49,6 +54,7 @@ pub enum SelfMode {
 
 #[derive(Clone, Debug)]
 pub struct FnInfo {
+    pub group: String,
     pub ns: String,
     pub self_ty: Option<String>,
     pub name: String,
@@ -73,7 +79,36 @@ impl FnInfo {
     }
 }
 
+/// parsed source files (manifest files, plus crate files searched when a call is followed)
+pub struct FileCache {
+    pub repo: String,
+    pub files: BTreeMap<String, syn::File>,
+}
+
+impl FileCache {
+    pub fn new(repo: &str) -> Self {
+        FileCache { repo: repo.trim_end_matches('/').to_string(), files: BTreeMap::new() }
+    }
+    pub fn ensure(&mut self, path: &str) -> R<()> {
+        if self.files.contains_key(path) {
+            return Ok(());
+        }
+        let full = format!("{}/{}", self.repo, path);
+        let text = std::fs::read_to_string(&full)
+            .map_err(|e| TErr { file: path.to_string(), line: 0, msg: format!("cannot read source file: {}", e), missing: None })?;
+        let parsed = syn::parse_file(&text)
+            .map_err(|e| TErr { file: path.to_string(), line: e.span().start().line, msg: format!("syn parse error: {}", e), missing: None })?;
+        self.files.insert(path.to_string(), parsed);
+        Ok(())
+    }
+    pub fn get(&self, path: &str) -> Option<&syn::File> {
+        self.files.get(path)
+    }
+}
+
 pub struct Globals {
+    /// groups whose items were referred to since the last `take_used` (import computation)
+    pub used: RefCell<BTreeSet<String>>,
     /// (source error type, target error type) -> key of the translated `From::from`
     pub from_impls: Vec<(String, String, (Option<String>, String))>,
     pub structs: BTreeMap<String, StructInfo>,
@@ -90,7 +125,7 @@ pub fn ns_of(path: &str) -> String {
 }
 
 pub fn err_at<T>(file: &str, span: proc_macro2::Span, msg: impl Into<String>) -> R<T> {
-    Err(TErr { file: file.to_string(), line: span.start().line, msg: msg.into() })
+    Err(TErr { file: file.to_string(), line: span.start().line, msg: msg.into(), missing: None })
 }
 
 fn has_cfg_test(attrs: &[syn::Attribute]) -> bool {
@@ -180,13 +215,24 @@ pub fn find<'a>(path: &str, file: &'a syn::File, sel: &Sel) -> R<Found<'a>> {
             format!("selected item not found: {}", what)
         } else {
             format!("selected item is ambiguous ({} definitions): {}", hits.len(), what)
-        },
-    })
+        }, missing: None })
 }
 
 impl Globals {
-    pub fn build(files: &[(String, syn::File)]) -> R<Globals> {
+    pub fn note(&self, group: &str) {
+        if !group.is_empty() {
+            self.used.borrow_mut().insert(group.to_string());
+        }
+    }
+    pub fn take_used(&self) -> BTreeSet<String> {
+        std::mem::take(&mut *self.used.borrow_mut())
+    }
+
+    /// Build the symbol tables for the work list.  An item that cannot be registered marks its GROUP as failed
+    /// (first error kept) and the remaining items of that group are skipped; other groups are unaffected.
+    pub fn build(work: &[WorkItem], cache: &FileCache, failed: &mut BTreeMap<String, TErr>) -> Globals {
         let mut g = Globals {
+            used: RefCell::new(BTreeSet::new()),
             from_impls: Vec::new(),
             structs: BTreeMap::new(),
             enums: BTreeMap::new(),
@@ -194,37 +240,55 @@ impl Globals {
             fns: BTreeMap::new(),
         };
         register_builtins(&mut g);
-        let file_of = |p: &str| -> &syn::File { &files.iter().find(|(q, _)| q == p).unwrap().1 };
         // pass 1: names of translated types
         let mut type_names: Vec<String> = g.structs.keys().cloned().collect();
-        for (path, sels) in MANIFEST {
-            for sel in *sels {
-                match sel {
-                    Sel::Struct(n) | Sel::Enum(n) | Sel::StructView(n, _) => {
-                        if type_names.iter().any(|t| t == n) {
-                            return Err(TErr {
-                                file: path.to_string(),
-                                line: 0,
-                                msg: format!("two selected types share the simple name {}", n),
-                            });
-                        }
+        for w in work {
+            match &w.sel {
+                Sel::Struct(n) | Sel::Enum(n) | Sel::StructView(n, _) => {
+                    if type_names.iter().any(|t| t == n) {
+                        failed.entry(w.group.clone()).or_insert(TErr {
+                            file: w.file.clone(),
+                            line: 0,
+                            msg: format!("two selected types share the simple name {}", n),
+                            missing: None,
+                        });
+                    } else {
                         type_names.push(n.to_string());
                     }
-                    _ => {}
                 }
+                _ => {}
             }
         }
         // pass 2: definitions and signatures
-        let mut order = 0usize;
-        for (path, sels) in MANIFEST {
-            let file = file_of(path);
-            let ns = ns_of(path);
-            for sel in *sels {
-                order += 1;
+        for (idx, w) in work.iter().enumerate() {
+            if failed.contains_key(&w.group) {
+                continue;
+            }
+            if let Err(e) = g.register(w, idx + 1, cache, &type_names) {
+                failed.insert(w.group.clone(), e);
+            }
+        }
+        g
+    }
+
+    fn register(&mut self, w: &WorkItem, order: usize, cache: &FileCache, type_names: &[String]) -> R<()> {
+        let g = self;
+        let path: &str = &w.file;
+        let sel = &w.sel;
+        let group = w.group.clone();
+        let file = match cache.get(path) {
+            Some(f) => f,
+            None => return Err(TErr { file: path.to_string(), line: 0, msg: "source file was not parsed".into(), missing: None }),
+        };
+        let ns = ns_of(path);
+        let type_names: Vec<String> = type_names.to_vec();
+        {
+            {
                 match find(path, file, sel)? {
                     Found::Const(c) => {
                         let ty = conv_ty(path, &c.ty, None, &type_names)?;
                         g.consts.entry(c.ident.to_string()).or_default().push(ConstInfo {
+                            group: group.clone(),
                             ns: ns.clone(),
                             name: c.ident.to_string(),
                             ty,
@@ -262,7 +326,7 @@ impl Globals {
                             }
                             _ => return err_at(path, s.span(), "only structs with named fields are supported"),
                         }
-                        g.structs.insert(s.ident.to_string(), StructInfo { ns: ns.clone(), name: s.ident.to_string(), fields, view });
+                        g.structs.insert(s.ident.to_string(), StructInfo { group: group.clone(), ns: ns.clone(), name: s.ident.to_string(), fields, view });
                     }
                     Found::Enum(e) => {
                         if e.generics.params.iter().any(|p| !matches!(p, syn::GenericParam::Lifetime(_))) {
@@ -296,8 +360,7 @@ impl Globals {
                                     let d = i.base10_parse::<u128>().map_err(|_| TErr {
                                         file: path.to_string(),
                                         line: i.span().start().line,
-                                        msg: "unsupported discriminant".into(),
-                                    })?;
+                                        msg: "unsupported discriminant".into(), missing: None })?;
                                     next = d + 1;
                                     Some(d)
                                 }
@@ -310,7 +373,7 @@ impl Globals {
                             };
                             variants.push(VariantInfo { name: v.ident.to_string(), fields, discr });
                         }
-                        g.enums.insert(e.ident.to_string(), EnumInfo { ns: ns.clone(), name: e.ident.to_string(), variants, all_unit });
+                        g.enums.insert(e.ident.to_string(), EnumInfo { group: group.clone(), ns: ns.clone(), name: e.ident.to_string(), variants, all_unit });
                     }
                     Found::Fn(sig, _, _) => {
                         let self_ty = match sel {
@@ -376,6 +439,7 @@ impl Globals {
                             g.from_impls.push((s.to_string(), d.to_string(), (self_ty.clone(), fn_name.clone())));
                         }
                         g.fns.entry((self_ty.clone(), fn_name.clone())).or_default().push(FnInfo {
+                            group: group.clone(),
                             ns: ns.clone(),
                             self_ty,
                             name: fn_name,
@@ -390,7 +454,7 @@ impl Globals {
                 }
             }
         }
-        Ok(g)
+        Ok(())
     }
 }
 
@@ -429,15 +493,16 @@ fn register_builtins(g: &mut Globals) {
     let ns = BUILTIN_NS.to_string();
     g.structs.insert(
         "Range".into(),
-        StructInfo { ns: ns.clone(), name: "Range".into(), fields: vec![("start".into(), Ty::Int(64)), ("end".into(), Ty::Int(64))], view: false },
+        StructInfo { group: String::new(), ns: ns.clone(), name: "Range".into(), fields: vec![("start".into(), Ty::Int(64)), ("end".into(), Ty::Int(64))], view: false },
     );
     for n in ["OctetsMut", "Octets", "BufferTooShortError", "ReadCursor", "WriteCursor"] {
-        g.structs.insert(n.into(), StructInfo { ns: ns.clone(), name: n.into(), fields: vec![], view: false });
+        g.structs.insert(n.into(), StructInfo { group: String::new(), ns: ns.clone(), name: n.into(), fields: vec![], view: false });
     }
     let bts = Ty::Named("BufferTooShortError".into());
     let bytes = Ty::List(Box::new(Ty::u8()), ListKind::Slice);
     let mut add = |st: &str, name: &str, mode: SelfMode, params: Vec<(&str, Ty)>, ret: Ty| {
         g.fns.entry((Some(st.to_string()), name.to_string())).or_default().push(FnInfo {
+            group: String::new(),
             ns: ns.clone(),
             self_ty: Some(st.to_string()),
             name: name.to_string(),
